@@ -355,7 +355,8 @@ def run(P, rep, tier):
     rep.assumptions += ['children leave their value per the register convention stated in codegen.c load(): sub-int values extended to 32 bits, upper half undefined',
                         'instruction semantics per Intel SDM for the mnemonics chibicc emits (sa/x86.py)', 'typing relation of add_type (operands already converted to the common type)',
                         'R01.14/R01.15 evaluate the trees the parser builds with a reference evaluator of the node language: ND_CAST converts per R01.5, arithmetic nodes compute in the width of their type per R01.6, ND_ASSIGN stores the low bytes of its right operand and yields it (a bit-field: the low `width` bits, re-extended; C04), ND_COMMA sequences',
-                        'R01.19: a _Bool bit-field has width 1; the operand of an assignment has already been converted to the type of the left operand (R01.2), its value is any value of that type']
+                        'R01.19: a _Bool bit-field has width 1; the operand of an assignment has already been converted to the type of the left operand (R01.2), its value is any value of that type',
+                        'R01.21: a member that is the operand of an expression or the target of an initializer has 1 <= bit_width <= 64, bit_offset >= 0 and bit_width + bit_offset within its storage unit of 8, 16, 32 or 64 bits (struct_members / struct layout: C08); the host is x86-64 (int 32 bits, long 64 bits; a shift count is taken modulo the operand width); Member.bit_width / bit_offset are not modified between a guard and the shift it dominates']
     r016(cg, rep)
     rep.rule('R01.5', 'every integer-to-integer (and to _Bool) conversion emits the extension/truncation the register convention requires for (from,to)', floor=90)
     r015(cg, rep, 'int')
@@ -424,3 +425,10 @@ def run(P, rep, tier):
     from .c03 import r_logic
     rep.rule('R01.10', '&& and ||: the left operand is evaluated and tested first, the right operand only when it decides the result, each operand is compared with zero at its own type and width, and the result is the int 0 or 1', floor=8)
     r_logic(cg, rep, 'R01.10')
+    from ..lib_c01shift import r_host_shifts
+    rep.rule('R01.21', 'host arithmetic of bit-field constants: every shift the compiler itself performs whose count is derived from a member\'s bit_width / bit_offset (directly, through a local, or '
+                       'through a parameter bound at the call sites) has a count of at least 0 and below the width of the promoted left operand for every geometry a declaration admits '
+                       '(width 1..64, width + offset within the storage unit) that the dominating guards let through - otherwise the host wraps the count (1L << 64 is 1, 1 << 40 is 256) and the '
+                       'mask or merged word the compiler emits for a store to / a static initialiser of the field is not the C11 value', floor=2)
+    r_host_shifts(P, rep, 'R01.21')
+
